@@ -210,17 +210,16 @@ def r20a(chk, rid='R20.a'):
 
 
 def r20c(chk, rid='R20.c'):
-    chk.rule(rid, 'the reported encoding is lower-case: every extractor lower-cases what it returns (HTTP charset, meta charset, XML declaration) and the BOM and media-type default tables contain lower-case literals only')
+    chk.rule(rid, 'the reported encoding is lower-case: every extractor lower-cases what it returns (the HTTP charset by evaluation of getHTTPInfo here, the meta charset in R20.f, the XML declaration in R20.e and below) and the BOM and media-type default tables contain lower-case literals only')
     m = chk.repo.mod(ENC)
-    for fn_name, var in (('getHTTPInfo', 'encoding'), ('getMetaInfo', 'encoding')):
-        fn = m.get(fn_name)
-        src = ast.unparse(fn)
-        chk.ob(rid, ENC, fn_name, 'lower-cases the charset it returns', f'{var} = {var}.lower()' in src, 'an upper-case charset from the document reaches encinfo.encoding', shape=True)
-        g = cfgmod.CFG(fn)
-        low = [n for n in g.nodes if n.kind == 'stmt' and text(n.stmt) == f'{var} = {var}.lower()']
-        rets = [n for n in g.nodes if n.kind == 'return']
-        ok = bool(low) and all(isinstance(x.stmt.value, ast.Tuple) and text(x.stmt.value.elts[1]) == var for x in rets)
-        chk.ob(rid, ENC, fn_name, f'returns that variable', ok, '')
+    # getHTTPInfo by evaluation (getMetaInfo is decided in R20.f, detectXMLEncoding in R20.e)
+    from sa.absint import Evaluator as _Ev, Raised as _Ra, Record as _Rec
+
+    fn = m.get('getHTTPInfo')
+    for charset, want in (('ISO-8859-5', 'iso-8859-5'), ('utf-8', 'utf-8'), ('Windows-1252', 'windows-1252'), (None, None)):
+        info = _Rec(get_content_type=lambda: 'text/css', get_content_charset=lambda charset=charset: charset)
+        got = _Ev(fn, module=m).run(response=_Rec(info=lambda info=info: info), log=None)
+        chk.ob(rid, ENC, 'getHTTPInfo', f'transport charset {charset!r} is reported as {want!r} (by evaluation)', not isinstance(got, _Ra) and tuple(got) == ('text/css', want), f'returns {got!r}: an upper-case charset from the transport reaches encinfo.encoding')
     fd = m.get('detectXMLEncoding')
     src = ast.unparse(fd)
     chk.ob(rid, ENC, 'detectXMLEncoding', 'lower-cases the declared encoding', "enc = match.group('encstr').lower()" in src, '', shape=True)
